@@ -146,11 +146,12 @@ func errClass(err error) string {
 }
 
 type recvResult struct {
-	crash bool
-	fwd   []int
-	err   string
-	init  bool
-	proc  []string
+	crash    bool
+	released bool // the receive side closed the `initialized` channel: the waiting event loop is released
+	fwd      []int
+	err      string
+	init     bool
+	proc     []string
 }
 
 func (r recvResult) String() string {
@@ -168,7 +169,7 @@ func (r recvResult) String() string {
 	if len(r.proc) > 0 {
 		p = strings.Join(r.proc, ";")
 	}
-	return fmt.Sprintf("fwd=%s err=%s init=%s proc=%s", f, r.err, wire.B(r.init), p)
+	return fmt.Sprintf("fwd=%s err=%s init=%s released=%s proc=%s", f, r.err, wire.B(r.init), wire.B(r.released), p)
 }
 
 func watches(con *pxds.Connection, url string) bool {
@@ -217,7 +218,7 @@ func runRecv(mode string, items []string) (res recvResult) {
 		if r.Panic != nil {
 			return recvResult{crash: true}
 		}
-		res.err, res.init = errClass(r.Err), pxds.VerifC04ProxyInitialized(con)
+		res.err, res.init, res.released = errClass(r.Err), pxds.VerifC04ProxyInitialized(con), r.InitializedClosed
 		for _, fr := range r.Forwarded {
 			for i, q := range st.reqs {
 				if q == fr {
@@ -247,7 +248,7 @@ func runRecv(mode string, items []string) (res recvResult) {
 	if r.Panic != nil {
 		return recvResult{crash: true}
 	}
-	res.err, res.init = errClass(r.Err), pxds.VerifC04ProxyInitialized(con)
+	res.err, res.init, res.released = errClass(r.Err), pxds.VerifC04ProxyInitialized(con), r.InitializedClosed
 	for _, fr := range r.Forwarded {
 		for i, q := range st.reqs {
 			if q == fr {
@@ -339,6 +340,7 @@ func genRecv(seed uint64, n int, outp string) {
 func oracleRecv(in, outp string) {
 	out := wire.Create(outp)
 	defer out.Close()
+	defer dumpStats(outp)
 	for _, f := range wire.ReadLines(in) {
 		if f[0] != "recv" {
 			continue
@@ -367,9 +369,17 @@ func oracleRecv(in, outp string) {
 				break
 			}
 		}
+		nodeClass := "probes-only"
+		if first >= 0 {
+			nodeClass = strings.Split(items[first], "/")[1]
+		}
+		stat("mode."+f[1], "first-node."+nodeClass, "clause.never-crashes")
 		switch {
 		case res.crash:
 			verdict = "FAIL never-crashes " + wire.Enc(strings.Join(f, " "))
+		case !res.released:
+			// the event loop waits for the receive side before it starts: it must be released whatever happened
+			verdict = "FAIL refused-or-ended-stream-releases-the-waiting-loop " + wire.Enc(res.String())
 		case first >= 0 && strings.Split(items[first], "/")[1] != "ok":
 			if res.err == "none" || len(res.fwd) > 0 || res.init {
 				verdict = "FAIL first-request-without-valid-node-refused " + wire.Enc(res.String())
